@@ -98,7 +98,8 @@ def gen_arm(rng, scrut, last):
     if k in (0, 1):
         c = rng.choice(INTS[2:])
         t = t_enum([c])
-        return ("%d" % c, t[1], t[2], t[3])
+        # an integer LITERAL arm: same type as the enum arm `(e: {c})` but different emitted code -> own spelling, no contains row
+        return ("%d" % c, "(lit %d)" % c, t[2], None)
     if k == 2:
         c = rng.choice(STRS)
         t = t_senum([c])
@@ -126,6 +127,66 @@ def gen_arm(rng, scrut, last):
         t = t_senum(STRS)
         return ("(e: %s)" % t[0], t[1], t[2], t[3])
     return ("_", "Obj", lambda v: True, ["class", "Obj"])
+
+
+# ---- back from the model S-expressions (corpus rows, replays)
+
+def parse_sexp(txt):
+    toks = re.findall(r"\(|\)|[^\s()]+", txt)
+    pos = [0]
+
+    def go():
+        t = toks[pos[0]]
+        pos[0] += 1
+        if t != "(":
+            return t
+        out = []
+        while toks[pos[0]] != ")":
+            out.append(go())
+        pos[0] += 1
+        return out
+    return go()
+
+
+def type_of_sexp(x):
+    """model type S-expression -> (surface, sexp, membership, contains form); None outside the generated shapes"""
+    if isinstance(x, list) and x[0] == "lit":
+        t = t_enum([int(x[1])])
+        return ("%d" % int(x[1]), "(lit %d)" % int(x[1]), t[2], None)
+    if isinstance(x, str):
+        return {"Int": t_int, "Nat": t_nat, "Str": t_str}.get(x, lambda: None)() if x != "Obj" else ("_", "Obj", lambda v: True, ["class", "Obj"])
+    if x[0] == "ref":
+        base, p = x[1], x[2]
+        if p[0] == "and" and p[1][0] == "ge" and p[2][0] == "le":
+            return t_range(int(p[1][1]), int(p[2][1]))
+        ks = [int(p[1])] if p[0] == "eq" else [int(q[1]) for q in p[1:] if q[0] == "eq"] if p[0] == "or" else None
+        if ks is None:
+            return None
+        return t_senum(ks) if base == "Str" else t_enum(ks)
+    if x[0] == "or":
+        ts = [type_of_sexp(y) for y in x[1:]]
+        return None if any(t is None for t in ts) else t_or(ts)
+    return None
+
+
+def arm_of_type(t, i):
+    if t[1].startswith("(lit "):
+        return t
+    if t[1] == "Obj":
+        return ("_", "Obj", t[2], t[3])
+    return ("(a%d: %s)" % (i, t[0]), t[1], t[2], t[3])
+
+
+def case_of_sexp(inp):
+    x = parse_sexp(inp)
+    if not isinstance(x, list) or x[0] != "match":
+        return None
+    scrut = type_of_sexp(x[1])
+    arms = [type_of_sexp(a) for a in x[2][1:]]
+    if scrut is None or any(a is None for a in arms):
+        return None
+    vals = [(v[0], int(v[1])) for v in x[3][1:]]
+    return scrut, [arm_of_type(a, i) for i, a in enumerate(arms)], vals
 
 
 def val_src(v):
@@ -203,6 +264,16 @@ def gen_rows(ctx, erg, n_prog, seed):
                 open(path, "w").write(src)
                 rc, out, err = run_erg(erg, "check", path)
                 rows.append((cid, inp, "(accept)" if rc == 0 else "(reject)"))
+                continue
+            if inp.startswith("(match"):
+                c = case_of_sexp(inp)
+                if c:
+                    rows.append((cid, inp, check_and_run(erg, wd, c[0], c[1], c[2], cid)))
+                continue
+            m = re.match(r"\(contains (Int|Nat|Str|Obj) \((int|str) (-?\d+)\)\)$", inp)
+            if m:
+                v = (m.group(2), int(m.group(3)))
+                contains_rows.append((cid, (m.group(1), m.group(1), None, ["class", m.group(1)]), v))
         for i in range(n_prog):
             scrut = gen_scrutinee(rng)
             arms = [gen_arm(rng, scrut, j == k - 1) for k in [rng.randint(1, 4)] for j in range(k)]
@@ -218,6 +289,8 @@ def gen_rows(ctx, erg, n_prog, seed):
             rows.append(("a%d" % i, "(accept %s (arms %s))" % (scrut[1], " ".join(a[1] for a in arms)),
                          "(accept)" if out.startswith("(accept)") else "(reject)" if out.startswith("(reject") else out))
             for j, a in enumerate(arms):
+                if a[3] is None:
+                    continue
                 for v in [("int", k) for k in INTS] + [("str", s) for s in STRS]:
                     contains_rows.append(("c%d_%d_%s%d" % (i, j, v[0][0], v[1]), a, v))
     finally:
@@ -254,7 +327,7 @@ def run(ctx):
         ctx.violation({"kind": "erg-build-failed", "log": log}, no_input=True)
         ctx.write_evidence(proof["obligations"], proof["discharged"], checker_cmd, extra)
         ctx.finish()
-    n = 400 if ctx.tier == "thorough" else 45
+    n = int(os.environ.get("C33_N", "0")) or (400 if ctx.tier == "thorough" else 24)
     rows = gen_rows(ctx, erg, n, ctx.seed)
     mrc, mrows, merr = core.run_model(PROP, rows)
     known = {e["id"] for e in ctx.known_findings()}
@@ -301,5 +374,24 @@ def run(ctx):
 
 def replay(ctx, path):
     rp = json.load(open(path))
-    print("replay of C33 cases re-generates the program from the case: see notes/C33.md; input:", rp.get("input"))
-    ctx.finish()
+    ok, log, erg = core.erg_binary()
+    core.lake_build(["ergmodel_c33"])
+    wd = tempfile.mkdtemp(prefix="c33_")
+    rows = []
+    for i, inp in enumerate([rp.get("input")] + list(rp.get("others", []))):
+        c = case_of_sexp(inp) if inp and inp.startswith("(match") else None
+        if c:
+            print(program(c[0], c[1], c[2]))
+            rows.append(("r%d" % i, inp, check_and_run(erg, wd, c[0], c[1], c[2], "r%d" % i)))
+    shutil.rmtree(wd, ignore_errors=True)
+    _, mrows, _ = core.run_model(PROP, rows)
+    res = core.compare(rows, mrows, {e["id"] for e in ctx.known_findings()})
+    for r_, m_ in zip(rows, mrows):
+        print("input:", r_[1])
+        print("  impl :", r_[2])
+        print("  model:", m_[1])
+        print("  spec :", m_[2], " inK:", m_[3])
+    bad = len(res.disagree) + len(res.spec_viol)
+    print("still failing" if bad else "no longer failing")
+    import sys
+    sys.exit(1 if bad else 0)
